@@ -162,10 +162,17 @@ func injectOddTargets(w *model.World, r *sim.RNG) {
 		doc["definitions"] = defs
 	}
 	defs["Closed"] = map[string]interface{}{"description": "closed", "additionalProperties": false, "additionalItems": true, "type": "object"}
+	// members that are present but hold neither a schema nor a non-empty list of schemas
+	defs["Degenerate"] = map[string]interface{}{"description": "degenerate", "type": "array",
+		"items":        []interface{}{[]interface{}{}, true, 5.0, "x", nil}[r.Intn(5)],
+		"allOf":        []interface{}{},
+		"properties":   map[string]interface{}{"inner": map[string]interface{}{"type": "array", "items": []interface{}{[]interface{}{}, false, 0.0}[r.Intn(3)], "additionalItems": []interface{}{true, false}[r.Intn(2)]}},
+		"dependencies": map[string]interface{}{"a": []interface{}{}}, "enum": []interface{}{}, "required": []interface{}{}}
 	defs["Null"] = nil
 	doc["x-null"] = nil
 	ptrs := []string{"/definitions/Closed/additionalProperties/properties/name", "/definitions/Closed/additionalItems/items", "/definitions/Closed/additionalProperties",
-		"/definitions/Null", "/x-null", "/definitions/Null/properties/a", "/definitions/Closed/not", "/definitions/Closed/items/0"}
+		"/definitions/Null", "/x-null", "/definitions/Null/properties/a", "/definitions/Closed/not", "/definitions/Closed/items/0",
+		"/definitions/Degenerate", "/definitions/Degenerate", "/definitions/Degenerate/properties/inner", "/definitions/Degenerate/items", "/definitions/Degenerate/items/0"}
 	n := 0
 	var visit func(u string, v interface{})
 	visit = func(u string, v interface{}) {
